@@ -181,23 +181,17 @@ def site_of(f, trace):
     if finals and j >= finals[-1] and not any(t[0] in ('rm', 'makedirs', 'open_w') for t in later):
         where = 'final-read'
     elif op == 'exists':
-        concat_later = any(t[0] in ('rm', 'ls', 'makedirs') or (t[0] == 'open_w' and RX_PART.match(t[1]))
-                           for t in later)
-        where = 'rm_retry' if (cls in ('tmpdir', 'dataset') or concat_later) else 'move_retry'
+        prev = trace[j - 1] if j else ('',)
+        where = 'rm_retry' if (prev[0] == 'rm' and prev[1] == path) else 'move_retry'
     return f'{kind}@{op}:{cls}' + (f':{where}' if where else '')
 
 
 def mechanism(sites):
-    """the recorded mechanisms by which a non-raising fault defeats the retry logic"""
-    for s_ in sorted(sites):
-        if s_.startswith('lie@exists:') and s_.endswith(':rm_retry'):
-            return 'lying-exists:rm_retry'
-    for s_ in sorted(sites):
-        if s_.startswith('lie@exists:') and s_.endswith(':move_retry'):
-            return 'lying-exists:move_retry'
-    for s_ in sorted(sites):
-        if s_.startswith('stale') and '@find:dataset:final-read' in s_:
-            return 'stale-final-listing'
+    """the one recorded way in which a non-raising fault gets past the retry logic: a stale
+    listing inside the final, un-retried read_parquet_dask (the dataset on disk is right, the
+    returned lazy frame lacks a partition)"""
+    if sites and all(s_.startswith('stale') and '@find:dataset:final-read' in s_ for s_ in sites):
+        return 'stale-final-listing'
     return None
 
 
